@@ -245,6 +245,16 @@ def check(case, ctx):
                 if D.is_tie(o1[a], o1[b]) or D.is_tie(o2[a], o2[b]):
                     ctx.discard("numerical tie")
                     return []
+                tol2 = 1e-9 * max(1.0, abs(float(o2[a]))) if np.isfinite(o2[a]) else 0.0
+                if np.isfinite(o2[a]) and not np.isnan(o2[b]) and o2[b] < o2[a] - tol2:
+                    # judged with the LOG fit's own objective (which cannot underflow) the logarithmic
+                    # run did not pick its best timepoint while the linear run did: the disagreement is
+                    # not a loss of information in linear space
+                    out.append(Violation("maximization:log_choice_worse_under_its_own_objective",
+                                         f"node {u}: logarithmic space chose index {b} (objective {o2[b]!r}) although "
+                                         f"index {a}, chosen in linear space, has {o2[a]!r} under the log fit",
+                                         node=int(u)))
+                    break
                 if D.linear_margin(o1, terms, norms, [a, b]) < -650 or np.any(np.isnan(o1)):
                     ctx.discard("out_of_domain:linear_underflow_at_candidate")
                     return []
